@@ -17,6 +17,8 @@ Proof.
   - inversion H; subst. lia.
   - specialize (IHl _ x _ H). lia.
 Qed.
+Lemma sumf_upd_le : forall A (r : A -> nat) l i x, sumf r (upd i x l) <= sumf r l + r x.
+Proof. induction l; intros [|i] x; simpl; try lia. specialize (IHl i x). lia. Qed.
 Lemma sumf_repeat0 : forall A (r : A -> nat) x, sumf r (repeat x 0) = 0.
 Proof. reflexivity. Qed.
 
@@ -25,7 +27,7 @@ Definition crk (p : clphase) : nat :=
 Definition frk (f : fetcher) : nat :=
   match f_ph f with
   | FExit => 0 | FReadTop => 1 | FBackoff => 2 | FSendErr2 => 2 | FSendErr => 3 | FSending _ => 3
-  | FInit => 4 | FFetching => 4 | FOffsets => 5 end.
+  | FLookup _ => 4 | FFetching => 4 | FOffsets => 5 | FInit => 7 end.
 Definition krk (k : call) : nat :=
   match k_ph k with
   | PDone _ => 0 | PCWait (Some _) => 1 | PCWait None => 2 | PCSelect => 3 | PCCheck => 4 | PFSelect _ => 5 | PFLock => 6
@@ -54,7 +56,7 @@ Definition nrk (f : fn) : nat :=
   end.
 Definition lrk (l : lagphase) : nat :=
   match l with LagOff => 0 | LagExit => 0 | LagTick => 1 | LagWait _ => 2 | LagStart => 5 end.
-Definition irk (i : iphase) : nat := match i with IDone => 0 | IConn => 1 | IDial => 2 end.
+Definition irk (i : iphase) : nat := match i with IDone => 0 | IConn => 1 | IOrphan => 1 | IDial => 2 | ILookup => 2 end.
 
 Definition mu (s : state) : nat :=
   sumf crk (closers s) + sumf frk (fetchers s) + sumf krk (calls s) + rrk (rph s) + grk (gph s)
@@ -143,6 +145,17 @@ Proof.
     unfold mu; unf; try rewrite reply_all_calls_only; rewrite ?H1; destr_goal; cbn; rw_fields; cbn;
     upd_facts; rewrite ?sumf_app, ?app_length; cbn in *; try lia; destr_goal; cbn in *; try lia;
     try (match goal with R : context [match ?x with _ => _ end] |- _ => destruct x; lia end).
+  - (* LFSeeCancel *) step_inv St;
+    unfold progress, is_race, call_ctx, f_cancelled, fcancelled, fn_gen_done in Pr; cbn in Pr;
+    rewrite ?H2, ?H3, ?orb_true_r in Pr; try discriminate;
+    repeat match goal with E : nth_error _ _ = Some _ |- _ => rewrite E in Pr end;
+    rewrite ?H2, ?H3, ?orb_true_r in Pr; cbn in Pr; try discriminate;
+    rank_facts;
+    unfold mu; unf; try rewrite reply_all_calls_only; rewrite ?H1; destr_goal; cbn; rw_fields; cbn;
+    repeat match goal with |- context [sumf irk (upd ?j ?x (inners ?s0))] =>
+      let Ule := fresh "Ule" in pose proof (sumf_upd_le _ irk (inners s0) j x) as Ule;
+      let zi := fresh "zi" in set (zi := sumf irk (upd j x (inners s0))) in *; clearbody zi end;
+    upd_facts; rewrite ?sumf_app, ?app_length; cbn in *; try lia; destr_goal; cbn in *; try lia.
   - (* LGClose *) step_inv St;
     unfold progress, is_race, call_ctx, f_cancelled, fcancelled, fn_gen_done in Pr; cbn in Pr;
     rewrite ?H2, ?H3, ?orb_true_r in Pr; try discriminate;
